@@ -864,13 +864,17 @@ func (u *UserManager) GetNamespaceByUser(userName, password string) string {
 	return ""
 }
 
+// getUserKey builds the key of userNamespaces. The length of the user name comes first so that
+// the key is unique and can be taken apart again whatever characters (':' included) the user name
+// and the password contain.
 func getUserKey(username, password string) string {
-	return username + ":" + password
+	return strconv.Itoa(len(username)) + ":" + username + ":" + password
 }
 
 func getUserAndPasswordFromKey(key string) (username string, password string) {
-	strs := strings.Split(key, ":")
-	return strs[0], strs[1]
+	i := strings.IndexByte(key, ':')
+	n, _ := strconv.Atoi(key[:i])
+	return key[i+1 : i+1+n], key[i+2+n:]
 }
 
 const (
